@@ -36,6 +36,17 @@ type rsTarget struct {
 
 func rsMake(kind string) rsTarget {
 	switch kind {
+	case "compositefail":
+		// a child that fails 30 ms after it started and a sibling whose Run needs 400 ms to return once it is told to
+		// stop: the composite's Run() is busy tearing down (state Error) for that long
+		slow := &lcChild{name: "slow", lc: lifecycle.New(), lingerMs: 400}
+		bad := &lcChild{name: "bad", lc: lifecycle.New(), failAfterMs: 30}
+		cb := func() (*composite.Config[supervisor.Runnable], error) {
+			return composite.NewConfig("c", []composite.RunnableEntry[supervisor.Runnable]{{Runnable: slow, Config: 1}, {Runnable: bad, Config: 1}})
+		}
+		rn, err := composite.NewRunner(cb, composite.WithLogHandler[supervisor.Runnable](quietLog))
+		must(err)
+		return rsTarget{rn.Run, rn.Stop, func() { rn.Reload(context.Background()) }}
 	case "composite":
 		children := []supervisor.Runnable{&lcChild{name: "a", lc: lifecycle.New()}, &lcChild{name: "b", lc: lifecycle.New()}}
 		cb := func() (*composite.Config[supervisor.Runnable], error) {
@@ -197,6 +208,9 @@ func runRunStop(o Opts) {
 					jobs = append(jobs, RsScenario{Kind: k, Ops: ops})
 				}
 			}
+			// Stop() while Run() is tearing down after a child's failure
+			jobs = append(jobs, RsScenario{Kind: "compositefail", Ops: []string{"run", "wait", "wait", "wait", "wait", "wait", "wait", "wait", "wait", "wait", "wait", "stop"}})
+			jobs = append(jobs, RsScenario{Kind: "compositefail", Ops: []string{"run", "wait", "wait", "wait", "wait", "wait", "wait", "wait", "wait", "wait", "wait", "wait", "wait", "stop", "stop"}})
 		}
 		rnd := newRand(o.Seed, 7)
 		n := 30
